@@ -44,7 +44,7 @@ SOFTMAX = Parameterization(activation="softmax", initialization="normal")
 
 
 def plan(tier, seed):
-    n = 48 if tier == "quick" else 9000
+    n = 96 if tier == "quick" else 9000
     kinds = ["rg", "rg", "rg", "rg", "image", "tabular", "hmm", "ff", "cp", "tucker"]
     cases = [{"kind": kinds[k % len(kinds)], "k": k, "seed": seed} for k in range(n)]
     # per-variable Binomial arguments (same units and parameter shapes, different total_count) in the
